@@ -646,7 +646,7 @@ class Interp:
         segs = p.split('::')
         full2 = '::'.join(segs[-2:])
         if len(segs) >= 2 and re.match(r'^[A-Z]', segs[-2]) and re.match(r'^[A-Z]', last):
-            return Enum('::'.join(segs[:-1]), full2 if full2 in s.enum_discr else last, fields)
+            return Enum('::'.join(segs[:-1]), full2 if full2 in ENUM_DISCR else last, fields)
         if last in ('Some', 'None', 'Ok', 'Err'):
             return Enum('::'.join(segs[:-1]), last, fields)
         return Agg(p, fields)
